@@ -198,6 +198,11 @@ pub fn templates() -> Vec<(&'static str, Vec<b::Rule>)> {
         ("two-pred-join", vec![b::rule("r", &[x(), y()], &[b::pred("p", &[x()]), b::pred("q", &[x(), y()])])]),
         ("three-way-join", vec![b::rule("r3", &[x()], &[b::pred("p", &[x()]), b::pred("q", &[x(), y()]), b::pred("e", &[y(), z()])])]),
         ("same-var-across-and-within", vec![b::rule("r", &[x()], &[b::pred("q", &[x(), y()]), b::pred("q", &[y(), x()])])]),
+        // the first predicate binds every variable; the trailing ones only add their origins - one derivation per
+        // origin set under which the trailing fact exists
+        ("trailing-predicate-all-bound", vec![b::rule("r", &[x(), y()], &[b::pred("q", &[x(), y()]), b::pred("p", &[x()])])]),
+        ("trailing-constant-predicate", vec![b::rule("r", &[x()], &[b::pred("p", &[x()]), b::pred("p", &[b::int(1)])])]),
+        ("same-predicate-three-times", vec![b::rule("r", &[x()], &[b::pred("p", &[x()]), b::pred("p", &[x()]), b::pred("p", &[x()])])]),
     ];
     // a constant of every term type in the body
     let names = ["int1", "int2", "str", "date", "bytes", "bool", "set", "null", "array", "map"];
@@ -222,6 +227,8 @@ pub fn fact_bases() -> Vec<Vec<WFact>> {
         vec![fact("p", vec![b::int(1)], &[0]), fact("p", vec![b::int(1)], &[1]), fact("q", vec![b::int(1), b::int(2)], &[1]), fact("e", vec![b::int(2), b::int(2)], &[2])],
         vec![fact("q", vec![b::int(3), b::int(4)], &[0]), fact("q", vec![b::int(4), b::int(3)], &[0]), fact("q", vec![b::int(5), b::int(5)], &[1]), fact("p", vec![b::int(5)], &[A])],
         vec![],
+        // the same facts under several origin sets
+        vec![fact("p", vec![b::int(1)], &[0]), fact("p", vec![b::int(1)], &[1]), fact("p", vec![b::int(1)], &[2]), fact("q", vec![b::int(1), b::int(1)], &[0]), fact("q", vec![b::int(1), b::int(1)], &[A]), fact("q", vec![b::int(1), b::int(2)], &[1, 2])],
     ];
     // every term type as a p fact (two bases of five)
     out.push(v[..5].iter().enumerate().map(|(i, t)| fact("p", vec![t.clone()], &[i % 3])).collect());
